@@ -203,3 +203,14 @@ P('C18', 'proof',
   'attribute outside their constructors; (sort) every sort key is free of identity/randomness and the fill batch is a stable sort over FIFO '
   'queues drained in portfolio-creation order. Trusted: determinism of pandas/numpy and of dict insertion order.')
 TECHNIQUE['C18'] = 'static analysis: closed-world source enumeration (sets, listdir, random/time, globals, memoisation, sorts) with taint and effect discharge rules'
+
+P('C08', 'other',
+  'Claimed only as wiring and data-source conformance; the property itself - equality of fills, cash, holdings and equity with an '
+  'independent re-implementation for all markets - is numerical agreement between two programs and is NOT decided. Decided slots, each a '
+  'necessary condition of one documented rule: sizers size from the session portfolio\'s total equity and the latest ask at dt; long_only '
+  'selects the cash-buffered sizer with the caller\'s buffer, else the leveraged sizer with the caller\'s leverage, identically in the session '
+  'and the trading system; fixed-weight optimiser; pass-through execution algorithm; every final order submitted exactly once to the session '
+  'portfolio; broker built with the configured fee model and the portfolio funded with the whole initial cash; plus the rules of C10-S1, C11, '
+  'C09-S2..S4, C04-S2..S6, C05-S1..S3, C14-S1/S5, the broker mark loop, the clock range, and agreement of the bar Open/Close row times with '
+  'the exchange\'s open/close.')
+TECHNIQUE['C08'] = 'static analysis: wiring/provenance slot table over symbolic summaries (necessary conditions only; numerical agreement not decided)'
